@@ -34,6 +34,10 @@ HEADERS = {
     'melted': ('k', 'variable', 'value'),
     'piv': ('k', 'v', 'x'),      # pivot input: x numeric
     'col1': ('v',),              # one numeric column
+    'dup': ('k', 'v', 'x'),      # constant key: one long run of duplicate keys (presorted by k)
+    'dup2': ('k', 'w', 'y'),     # right-hand partner of dup
+    'inc': ('k', 'v', 'x'),      # strictly increasing key (presorted by k, every group has one row)
+    'inc2': ('k', 'w', 'y'),     # right-hand partner of inc
 }
 
 
@@ -61,6 +65,14 @@ def row(kind, i):
         return (_KEYS[i % 4], _VALS[i % 5], i)
     if kind == 'col1':
         return (_VALS[i % 5],)
+    if kind == 'dup':
+        return ('a', _VALS[i % 5], 'r%d' % i)
+    if kind == 'dup2':
+        return ('a', 10 + (i % 3), 'q%d' % i)
+    if kind == 'inc':
+        return (i, _VALS[i % 5], 'r%d' % i)
+    if kind == 'inc2':
+        return (i, 10 + (i % 3), 'q%d' % i)
     raise KeyError(kind)
 
 
@@ -510,6 +522,34 @@ op('mergesort(presorted,stream)', ['g', 'same'], lambda a, b: etl.mergesort(a, b
    ('stream:0', 'passall', 'c02only'), zero='skip')
 op('mergesort(presorted,key=None,stream)', ['g', 'same'], lambda a, b: etl.mergesort(a, b, presorted=True),
    ('stream:0', 'passall', 'c02only'), zero='skip')
+# presorted=True turns the sort-backed operators into streaming ones (laziness check only: the counting
+# sources of kind dup / inc ARE sorted by k)
+PS = ('stream:0', 'passall', 'c02only')
+for _nm, _f in [('join', etl.join), ('leftjoin', etl.leftjoin), ('rightjoin', etl.rightjoin),
+                ('outerjoin', etl.outerjoin), ('lookupjoin', etl.lookupjoin)]:
+    op('%s(presorted,dupkeys)' % _nm, ['dup', 'dup2'],
+       (lambda f: lambda a, b: f(a, b, key='k', presorted=True))(_f), PS, zero='skip')
+    op('%s(presorted,inckeys)' % _nm, ['inc', 'inc2'],
+       (lambda f: lambda a, b: f(a, b, key='k', presorted=True))(_f), PS, zero='skip')
+op('antijoin(presorted)', ['inc', 'dup2'], lambda a, b: etl.antijoin(a, b, key='k', presorted=True), PS, zero='skip')
+op('complement(presorted)', ['inc', 'dup'], lambda a, b: etl.complement(a, b, presorted=True), PS, zero='skip')
+op('intersection(presorted)', ['inc', 'inc'], lambda a, b: etl.intersection(a, b, presorted=True),
+   ('stream:0', 'c02only'), zero='skip')
+op('rowreduce(presorted)', ['inc'], lambda t: etl.rowreduce(t, 'k', _reducer, header=['k', 's'], presorted=True), PS, zero='skip')
+op('aggregate(len,presorted)', ['inc'], lambda t: etl.aggregate(t, 'k', len, presorted=True), PS, zero='skip')
+op('aggregate(multi,presorted)', ['inc'], lambda t: etl.aggregate(t, 'k', OrderedDict([('n', len), ('vs', ('v', list))]),
+                                                                   presorted=True), PS, zero='skip')
+op('fold(presorted)', ['inc'], lambda t: etl.fold(t, 'k', operator.add, 'v', presorted=True), PS, zero='skip')
+op('groupselectfirst(presorted)', ['inc'], lambda t: etl.groupselectfirst(t, 'k', presorted=True), PS, zero='skip')
+op('groupselectlast(presorted)', ['inc'], lambda t: etl.groupselectlast(t, 'k', presorted=True), PS, zero='skip')
+op('mergeduplicates(presorted)', ['inc'], lambda t: etl.mergeduplicates(t, 'k', presorted=True), PS, zero='skip')
+op('rowgroupmap(presorted)', ['inc'], lambda t: etl.rowgroupmap(t, 'k', _groupmapper, header=['k', 'n'], presorted=True),
+   PS, zero='skip')
+op('distinct(presorted)', ['inc'], lambda t: etl.distinct(t, 'k', presorted=True), PS, zero='skip')
+op('distinct(count,presorted)', ['inc'], lambda t: etl.distinct(t, 'k', count='n', presorted=True), PS, zero='skip')
+op('unique(presorted)', ['inc'], lambda t: etl.unique(t, 'k', presorted=True), PS, zero='skip')
+op('duplicates(presorted,dupkeys)', ['dup'], lambda t: etl.duplicates(t, 'k', presorted=True), PS, zero='skip')
+op('unjoin(presorted)[0]', ['inc'], lambda t: etl.unjoin(t, 'k', presorted=True)[0], PS, zero='skip')
 # ---- tee views (outside C01 by the statement; inside C02/C03/C20) --------------------------
 op('teetext(prologue,epilogue)', ['g'], lambda t, ctx: etl.teetext(
     t, os.path.join(ctx, 'tee2.txt'), template='{k}|{v}\n', prologue='k|v\n', epilogue='end\n'), ('ctx', 'notee') + S0)
